@@ -84,6 +84,9 @@ package rwriter
 //@   at call apierror.New#4: assert str(pathType) == str("")
 //@   at call apierror.New#4: ghost why := true
 //@   at call apierror.New#5: assert b58Err && hexErr
+// a multihash key is read as base58 first; hex is tried only when that fails (a key that is valid base58 is
+// never re-read as hex, whatever characters it is made of)
+//@   at call DecodeString: assert b58Err && count("call:base58.Decode") == 1
 //@   at call apierror.New#5: ghost why := true
 //@   at call apierror.New#6: assert str(pathType) != str(opts.mhPathType) && str(pathType) != str(opts.cidPathType)
 //@   at call apierror.New#6: ghost why := true
